@@ -96,6 +96,60 @@ theorem C01_stream_in_place_any_chunking (ops : List WOp) (w w' : BB) (hne : ops
     obtain ⟨cs', c, h⟩ := prog_roundtrip ops e ((w.write e).buf.drop (w.write e).pos) chunks he hw
     simp [h]
 
+/-! ### `ByteBuffer.Seek` (`stream.GoTo` / `Skip` / `Offset`) -/
+
+/-- the offset a seek aims at -/
+def seekTarget (w : BB) (wh : Whence) (off : Int) : Int :=
+  match wh with
+  | .start => off
+  | .cur => (w.pos : Int) + off
+  | .fin => (w.buf.length : Int) + off
+
+/-- **Seek** is refused exactly when it aims in front of the buffer; otherwise it sets the position to the
+target (relative to the start, the current position or the END OF THE STORAGE — not its capacity, not the
+write position) and changes nothing else.  A position beyond the end is allowed. -/
+theorem C01_stream_seek_spec (w : BB) (wh : Whence) (off : Int) :
+    (seekTarget w wh off < 0 → w.seek wh off = none) ∧
+    (0 ≤ seekTarget w wh off → w.seek wh off = some ⟨w.buf, (seekTarget w wh off).toNat⟩) := by
+  cases wh <;> simp only [BB.seek, seekTarget] <;> constructor <;> intro h <;> simp <;> omega
+
+/-- `Seek(0, io.SeekEnd)` followed by a writer program appends its encoding to the storage, whatever the
+position was before. -/
+theorem C01_stream_seek_end_appends (ops : List WOp) (w : BB) :
+    (w.seek .fin 0).bind (runW ops) = (encW ops).map (fun e => ⟨w.buf ++ e, w.buf.length + e.length⟩) := by
+  have h : w.seek .fin 0 = some (atEnd w.buf) := by simp [BB.seek, atEnd]
+  rw [h, Option.bind_some, runW_end ops w.buf]
+  cases encW ops <;> simp [atEnd]
+
+/-- **Round trip after any seek.**  Wherever a successful `Seek` (any `whence`, any distance) puts the write
+position: the writer program written there reads back — from that offset of the resulting storage, through
+any chunking — as the written values, leaving exactly the storage behind the new write position. -/
+theorem C01_stream_seek_in_place_any_chunking (ops : List WOp) (w w1 w' : BB) (wh : Whence) (off : Int)
+    (hs : w.seek wh off = some w1) (hne : ops ≠ []) (hrun : runW ops w1 = some w') (hw : ∀ op ∈ ops, op.wf)
+    (chunks : List Nat) :
+    w1.buf = w.buf ∧ (w1.pos : Int) = seekTarget w wh off ∧
+    (runProg (readOf ops) ⟨w'.buf.drop w1.pos, chunks⟩).res = .ok ∧
+    (runProg (readOf ops) ⟨w'.buf.drop w1.pos, chunks⟩).vals = valsOf ops ∧
+    (runProg (readOf ops) ⟨w'.buf.drop w1.pos, chunks⟩).rd.rest = w'.buf.drop w'.pos := by
+  have hsp := C01_stream_seek_spec w wh off
+  have hpos : 0 ≤ seekTarget w wh off := by
+    by_cases h : seekTarget w wh off < 0
+    · rw [hsp.1 h] at hs; simp at hs
+    · omega
+  rw [hsp.2 hpos] at hs
+  simp only [Option.some.injEq] at hs
+  subst hs
+  refine ⟨rfl, by simp [Int.toNat_of_nonneg hpos], ?_⟩
+  exact C01_stream_in_place_any_chunking ops _ w' (Or.inl hne) hrun hw chunks
+
+/-- Non-vacuity: Skip(-3) from position 5 of a 6-byte buffer, Seek(-2, end), a refused seek. -/
+example :
+    (⟨[1, 2, 3, 4, 5, 6], 5⟩ : BB).seek .cur (-3) = some ⟨[1, 2, 3, 4, 5, 6], 2⟩ ∧
+    (⟨[1, 2, 3, 4, 5, 6], 1⟩ : BB).seek .fin (-2) = some ⟨[1, 2, 3, 4, 5, 6], 4⟩ ∧
+    (⟨[1, 2, 3, 4, 5, 6], 1⟩ : BB).seek .cur (-2) = none ∧
+    (⟨[1, 2, 3], 1⟩ : BB).seek .start 7 = some ⟨[1, 2, 3], 7⟩ := by
+  decide
+
 /-- Non-vacuity: a collection rewritten in place in front of existing data inside a buffer with spare
 storage, followed by one more value: the bytes, the position and the read-back. -/
 example :
